@@ -271,7 +271,7 @@ CONSTANTS Page,          \* max-page-size (= common page size in the model)
           Base,          \* image base address
           PartLists,     \* set of candidate part lists (sequences of [cls, align, size, loc]); loc = -1: none
           RelroChoices,  \* subset of BOOLEAN: -z relro / -z norelro
-          Variant        \* "wild" | "naive-nobits" | "no-modulo" | "no-cut": deliberately broken placement rules (anti-vacuity)
+          Variant        \* "wild" | "naive-nobits" | "no-modulo" | "no-cut" | "page-modulo-at-location": deliberately broken placement rules (anti-vacuity)
 
 VARIABLES parts, relro, k, off, addr, secs, open, segs, pc
 
@@ -392,7 +392,9 @@ PlacePart ==
                     ELSE IF located THEN p.loc
                     ELSE IF Variant = "no-modulo" THEN AlignUp(addr, sa)
                     ELSE AlignModulo(sa, off, addr)
-           off1 == IF newLoad /\ located THEN AlignModulo(sa, addr1, off) ELSE off
+           off1 == IF newLoad /\ located
+                   THEN AlignModulo(IF Variant = "page-modulo-at-location" THEN Page ELSE sa, addr1, off)
+                   ELSE off
            \* the part itself
            off2 == AlignUp(off1, p.align)
            addr2 == IF ClsAlloc(p.cls) THEN AlignUp(addr1, p.align) ELSE addr1
